@@ -11,9 +11,14 @@ Definition enc_event (e : event) : nat * nat * nat :=
   | EAssign x (RLit _) => (1, x, 0)
   | EAssign x (RCopy y) => (2, x, y)
   end.
-Definition bridge_t : Type := (bool * bool * list (list nat * list nat * list (nat * nat * nat)))%type.
+(* the boolean form of [wf_ecfg] (Props.wf_by_cases proves that it implies [wf_ecfg]) *)
+Definition wf_ecfgb (g : ecfg) : bool :=
+  (0 <? length g) &&
+  forallb (fun b => forallb (fun s => (s <? length g) && negb (s =? 0)) (flow_s g b)) (seq 0 (length g)).
+Definition bridge_t : Type := (bool * (bool * bool) * list (list nat * list nat * list (nat * nat * nat)))%type.
 Definition obs_bridge (p : stmts) : bridge_t :=
   match build p false with
-  | BOk g _ => (true, cf_stmts p, map (fun b => (e_succ b, e_dsucc b, map enc_event (e_evs b))) (ecfg_of g))
-  | BErr _ => (false, cf_stmts p, [])
+  | BOk g _ => (true, (cf_stmts p, wf_ecfgb (ecfg_of g)),
+                map (fun b => (e_succ b, e_dsucc b, map enc_event (e_evs b))) (ecfg_of g))
+  | BErr _ => (false, (cf_stmts p, false), [])
   end.
